@@ -323,7 +323,7 @@ def gen_driver(facts, cfg, include_source=True):
         w('  { Fix fx; verif::emit("C09", "import-dispatcher-identity", "fixture", fx.pump == &fx.env.user_pump, ""); }')
     # C10
     w('  // ---------- C10: every single event left unbound')
-    ncl10 = [1, 2, 3] if mcport else [0]
+    ncl10 = [0, 1, 2, 3] if mcport else [0]     # 0: final construction with no client registered at all
     w(f'  for (int ncl : {{{", ".join(map(str, ncl10))}}}) {{')
     w('    int n = count_bindings(ncl);')
     w('    for (int k = 0; k < n; ++k) {')
@@ -338,8 +338,8 @@ def gen_driver(facts, cfg, include_source=True):
     if mcport:
         w('      bool late = throws([&]{ (void)fx.sh->ProvidesMultiClient' + mcport.p.cap + '("LATE"); }, what);')
         w('      verif::emit("C10", "no-registration-after-final-construct", "clients=" + std::to_string(ncl), late, what);')
-        w('      bool known = throws([&]{ (void)fx.sh->ProvidesMultiClient' + mcport.p.cap + '(CLIENTS[0]); }, what);')
-        w('      verif::emit("C10", "registered-client-still-accessible", "clients=" + std::to_string(ncl), !known, what);')
+        w('      if (ncl > 0) { bool known = throws([&]{ (void)fx.sh->ProvidesMultiClient' + mcport.p.cap + '(CLIENTS[0]); }, what);')
+        w('        verif::emit("C10", "registered-client-still-accessible", "clients=" + std::to_string(ncl), !known, what); }')
     w('    }')
     w('  }')
     if mcport:
